@@ -64,6 +64,22 @@ CLAIMED = {
    text="Same specification and executions as C01, judged on C19's clauses: dispatch exactly when a threshold is met or the timer ticks with nothing in flight, thresholds met during a batch take effect when it resolves, early cancellation removes the messages from the wire and from the accounting, late cancellation only detaches, stop fails everything outstanding, transmits nothing (no produce, no metadata request) and leaves no producer timer.",
    ref="DESIGN.md 6.5, 7 (C19)",
    note="Sending to a stopped producer is outside the documented use and is not scheduled."),
+ "C02": dict(
+   text="Consumer.tla models the single-partition consumer at the level of application calls, client replies (fetch windows drawn from a log with gaps: the next 0-3 entries, optionally preceded by an already consumed entry as a compressed batch returns it, 'too small', or ending in an entry that fails to decode), processor completions, timers; TLC checks exhaustively (5 configurations, bounded depth) that offsets reach the processor strictly increasing, without omission relative to the log from the resolved position, never overlapping; an edge cover of the state graph, TLC -simulate behaviours and seeded random schedules are executed on the real Consumer over a scripted client and TLC re-validates every recorded step (processor invocations, fetch offsets) and the order/no-gap clauses on the observed history.",
+   ref="DESIGN.md 6.6, 7 (C02)",
+   note="Trusted: TLC. In this family the client is the consumer's environment (scripted); message content, compressed sets and both message formats reach the consumer through the real client and codec only in the full-stack consumer runs (see DESIGN.md) and in C05's decoder vectors. A reply that fails to decode while parked behind processing is not scheduled."),
+ "C03": dict(
+   text="Same specification and executions as C02, judged on C03's clauses: every commit request carries the last processed offset at the moment it is issued, every delivered message up to it was processed successfully, one commit request outstanding at a time, the recorded last-committed offset changes only to a value the coordinator acknowledged (commit accepted) or reported (offset fetch), start from the committed position resumes at committed+1; processor failures, manual/count/time-triggered commits, their retries and stop/shutdown at every point.",
+   ref="DESIGN.md 6.6, 7 (C03)",
+   note="Process death is an application restart at an event boundary followed by start(OFFSET_COMMITTED) with the coordinator's stored value; the broker-side store is the scripted client's in this family."),
+ "C13": dict(
+   text="Same specification and executions as C02, judged on C13's clauses: stop and shutdown are enabled in every state (resolving offsets, fetching, reply parked, processing, retry backoff, manual/automatic commit in flight or in backoff), followed by every ordering of the outstanding replies and every commit outcome; after stop nothing is invoked, requested or left on the clock, the start Deferred fires exactly once with the predicted value, shutdown waits, commits and stops, restart works.",
+   ref="DESIGN.md 6.6, 7 (C13)",
+   note="stop() during a pending shutdown() and calls on a stopped consumer other than start/shutdown are not scheduled. Stop from inside the processor is exercised by the synchronous-processor configuration only through the stop-inside-block rule of the model."),
+ "C14": dict(
+   text="Same specification and executions as C02, judged on C14's clauses: retry delays come from an independently computed table (init*1.20205^k capped at the maximum, 2 microseconds tolerance), restart after a success, attempt limit (2, 3, unlimited), the three reset policies with out-of-range arriving at any point, buffer growth along an independently computed size sequence (x16 to 1 MiB, doubling above: 1.5->3->6->8 MiB) re-fetching the same offset, failing only at the maximum.",
+   ref="DESIGN.md 6.6, 7 (C14)",
+   note="Delays and sizes are compared exactly against tables computed by the harness from the documented rule, not from the implementation."),
 }
 PENDING_REASON = "check not built yet in this round (framework under construction; see DESIGN.md section 12 for the order)"
 
